@@ -22,25 +22,11 @@ type Alias = Identifier;
 //@ type sylt-tokenizer/src/tokenizer.rs struct Span keep=Copy clone=keep eq=none
 //@ type sylt-parser/src/parser.rs enum Prec keep=Copy,PartialOrd clone=keep eq=keep
 //@ type sylt-parser/src/parser.rs enum VarKind keep=Copy clone=keep eq=keep
-//@ type sylt-parser/src/parser.rs enum Op keep=Copy clone=keep eq=keep
+//@ include common/parser_ast.tpl
 //@ type sylt-parser/src/parser.rs struct Identifier keep=- clone=ext
-//@ type sylt-parser/src/parser.rs enum AssignableKind eq=none
-//@ type sylt-parser/src/parser.rs struct Assignable
-//@ type sylt-parser/src/parser.rs enum TypeAssignableKind eq=none
-//@ type sylt-parser/src/parser.rs struct TypeAssignable eq=none
-//@ type sylt-parser/src/parser.rs enum TypeKind eq=none
-//@ type sylt-parser/src/parser.rs struct Type
 //@ type sylt-parser/src/parser.rs struct TypeConstraint eq=none
 //@ type sylt-parser/src/parser.rs type ParseResult
 //@ type sylt-parser/src/parser.rs struct Context keep=Copy clone=keep
-//@ type sylt-parser/src/expression.rs enum ComparisonKind eq=none
-//@ type sylt-parser/src/expression.rs struct CaseBranch eq=none
-//@ type sylt-parser/src/expression.rs struct IfBranch eq=none
-//@ type sylt-parser/src/expression.rs enum ExpressionKind eq=none
-//@ type sylt-parser/src/expression.rs struct Expression
-//@ type sylt-parser/src/statement.rs enum NameIdentifier eq=none
-//@ type sylt-parser/src/statement.rs enum StatementKind eq=none
-//@ type sylt-parser/src/statement.rs struct Statement
 
 // R-next: Verus wants the `Sized` bound on a trait whose method returns Self.
 pub trait Next: Sized { fn next(&self) -> Self; }
